@@ -370,17 +370,30 @@ fn startup_test(c: &StartupCase, obs: &mut Obs) -> CheckResult {
             return Ok(());
         }
     };
-    let r = catch(|| {
-        if c.spawned {
-            match tracer.clone().spawn() {
-                Ok((_, handle)) => handle.join().unwrap_or_else(|_| Ok(())),
-                Err(e) => Err(e),
+    // real sockets: run on a helper thread and give up (inconclusive, not a violation) if the
+    // platform neither fails nor finishes the one-round run within 20 s
+    let (tx, rx) = std::sync::mpsc::channel();
+    let (t2, spawned) = (tracer.clone(), c.spawned);
+    std::thread::spawn(move || {
+        let r = catch(|| {
+            if spawned {
+                match t2.clone().spawn() {
+                    Ok((_, handle)) => handle.join().unwrap_or_else(|_| Ok(())),
+                    Err(e) => Err(e),
+                }
+            } else {
+                t2.run()
             }
-        } else {
-            tracer.run()
+        });
+        let _ = tx.send(r.map(|x| x.map_err(|e| e.to_string())));
+    });
+    let r = match rx.recv_timeout(std::time::Duration::from_secs(20)) {
+        Ok(r) => r.map_err(|p| Fail::new(panic_sig(&p), format!("Tracer::run panicked while setting up: {p}")))?,
+        Err(_) => {
+            obs.excluded("startup: the run neither failed nor finished within 20 s on this host");
+            return Ok(());
         }
-    })
-    .map_err(|p| Fail::new(panic_sig(&p), format!("Tracer::run panicked while setting up: {p}")))?;
+    };
     match r {
         Ok(()) => {
             // the host lets processes bind addresses it does not own: nothing to observe
@@ -388,7 +401,7 @@ fn startup_test(c: &StartupCase, obs: &mut Obs) -> CheckResult {
         }
         Err(e) => {
             let shown = tracer.snapshot().error().map(str::to_string);
-            vensure!(shown.as_deref() == Some(e.to_string().as_str()), "startup-error-not-in-snapshot", "the run ended with `{e}` before the first probe, snapshot().error() = {shown:?}");
+            vensure!(shown.as_deref() == Some(e.as_str()), "startup-error-not-in-snapshot", "the run ended with `{e}` before the first probe, snapshot().error() = {shown:?}");
             obs.class("startup-error-recorded");
             obs.nontrivial(&(c.v6, format!("{:?}", c.protocol), c.privileged, c.spawned));
         }
